@@ -3,14 +3,14 @@ CONSTANTS
   Range = 2
   Conc = 1
   TailH = 1
-  FailBudget = 1
+  FailBudget = 2
   CancelBudget = 0
   StopBudget = 1
   BgStore = FALSE
   FixSilentExit = TRUE
   FixResumeDone = TRUE
   FixRecentCp = TRUE
-  Coords = {0, 1}
+  Coords = {0, 1, 2}
   K = 2
   NoCaller = 0
   NoHeight = 0
@@ -19,8 +19,8 @@ CONSTANTS
   CascadeModes = {TRUE}
   PersistOnEmpty = TRUE
   CrashForgiven = TRUE
-  MaxCalls = 5
-  MaxEnv = 1
+  MaxCalls = 6
+  MaxEnv = 2
   MaxJobs = 4
 INIT Init
 NEXT Next
